@@ -27,6 +27,15 @@ CHECKS["C01"] = (
     "DESIGN.md section 3, C01",
 )
 
+CHECKS["C02"] = (
+    "bounded-exhaustive enumeration of (interface x format x configuration) on the implementation, reference-model comparison",
+    "Same interface space as C01 (including undocumented parameters) x 42 configurations (class, pydantic, function x annotations x kw-only, "
+    "argparse; 3 styles; emit_default_doc): emit, render with to_code, re-read with ast.parse, parse with the matching parser, compare every "
+    "field with the projection model under the two documented normalisations. Exhaustive inside the alphabet.",
+    "mc/oracle.py projection and the two documented normalisations; small-scope hypothesis",
+    "DESIGN.md section 3, C02",
+)
+
 PENDING_REASON = "check not built yet in this revision (planned, see DESIGN.md section 3); no claim is made"
 
 
